@@ -81,6 +81,13 @@ Proof. induction cs as [|c rest IH]; intros s self; cbn [restart_all]; [apply fr
 Lemma fr_set_registry s r : fr s (set_registry s r).
 Proof. apply fr_same_actors. reflexivity. Qed.
 
+Lemma fr_stop s u self t s' o p : stop_if_parent_gone s u self t = (s', o, p) -> fr s s'.
+Proof.
+  unfold stop_if_parent_gone. destruct (get s u) as [pa|]; [|intros H; inversion H; subst; apply fr_refl].
+  destruct (st_ge_terminating (a_st pa)); [|intros H; inversion H; subst; apply fr_refl].
+  destruct (terminate s self t (a_graceful pa)) as [s1 o1] eqn:E. intros H; inversion H; subst. eapply fr_terminate; exact E.
+Qed.
+
 Lemma fr_spawn s u self t r s' o p : spawn s u self t r = (s', o, p) -> fr s s'.
 Proof.
   unfold spawn. destruct (provide s t) as [s1 inst] eqn:Ep.
@@ -89,7 +96,7 @@ Proof.
   assert (K2 : fr s s2) by (eapply fr_trans; [exact K1|apply fr_append]).
   destruct (lookup t (registry s2)).
   - intros H; inversion H; subst. exact K2.
-  - intros H; inversion H; subst. eapply fr_trans; [exact K2|].
+  - intros H. eapply fr_trans; [|eapply fr_stop; exact H]. eapply fr_trans; [exact K2|].
     eapply fr_trans; [|apply fr_deliver_sys]. eapply fr_trans; [|apply fr_upd_actor; intros a; apply R_children]. apply fr_set_registry.
 Qed.
 Lemma fr_escalate s u r s' o p : escalate s u r = (s', o, p) -> fr s s'.
